@@ -41,15 +41,52 @@ class Module:
         return f"<Module {self.name}>"
 
 
+def _simple_ref(e: ast.expr) -> bool:
+    if isinstance(e, (ast.Name, ast.Constant)):
+        return True
+    return isinstance(e, ast.Attribute) and _simple_ref(e.value)
+
+
 class _Canon(ast.NodeTransformer):
-    """Canonical forms that carry no meaning for the rules: `x: T = v` on a plain local is read as `x = v`."""
+    """Canonical forms that carry no meaning for the rules: `x: T = v` on a plain local is read as `x = v`;
+    a statement whose value is a conditional expression (`return a if c else b`, `x = a if c else b`, `return t[a if c else b]`)
+    is read as the if/else statement it abbreviates."""
+
+    def _split_ifexp(self, node: ast.stmt):
+        v = getattr(node, "value", None)
+        cond = None
+        if isinstance(v, ast.IfExp):
+            cond = v
+            mk = lambda e: e  # noqa: E731
+        elif isinstance(v, ast.Subscript) and isinstance(v.slice, ast.IfExp) and _simple_ref(v.value):
+            cond = v.slice
+            mk = lambda e: ast.copy_location(ast.Subscript(value=v.value, slice=e, ctx=v.ctx), v)  # noqa: E731
+        if cond is None:
+            return node
+        import copy
+        a, b = copy.copy(node), copy.copy(node)
+        a.value, b.value = mk(cond.body), mk(cond.orelse)
+        new = ast.If(test=cond.test, body=[self._split_ifexp(a)], orelse=[self._split_ifexp(b)])
+        return ast.copy_location(new, node)
+
+    def visit_Return(self, node: ast.Return):  # noqa: N802
+        self.generic_visit(node)
+        return self._split_ifexp(node)
+
+    def visit_Assign(self, node: ast.Assign):  # noqa: N802
+        self.generic_visit(node)
+        return self._split_ifexp(node)
+
+    def visit_AugAssign(self, node: ast.AugAssign):  # noqa: N802
+        self.generic_visit(node)
+        return self._split_ifexp(node)
 
     def visit_AnnAssign(self, node: ast.AnnAssign):  # noqa: N802
         self.generic_visit(node)
         if isinstance(node.target, ast.Name) and node.value is not None:
             new = ast.Assign(targets=[node.target], value=node.value, type_comment=None)
             new._annotation = node.annotation  # type: ignore[attr-defined]
-            return ast.copy_location(new, node)
+            return self._split_ifexp(ast.copy_location(new, node))
         return node
 
 
